@@ -82,6 +82,40 @@ def init(repo: str, so_path: str | None, config: dict) -> None:
     CTX.update(repo=repo, so=so_path, config=dict(config), tzpath=tzp)
 
 
+def is_control(exc: BaseException) -> bool:
+    """Exceptions that belong to the harness or the interpreter, never to the code under test."""
+    return isinstance(exc, (Hang, KeyboardInterrupt, SystemExit, GeneratorExit))
+
+
+class guarded:
+    """`with guarded(acc, sub, case, seconds):` - run the operations of one state under a CPU-time horizon.
+
+    Expiry is recorded as the outcome HANG for that case (a violation of any property that promises a result)
+    and exploration continues with the next state.  Exceptions that are not `Exception`s (a Rust panic surfaces
+    as pyo3's PanicException, a BaseException) are recorded as the outcome of the case as well instead of
+    killing the worker."""
+
+    def __init__(self, acc, sub, case, seconds=10.0):
+        self.acc, self.sub, self.case, self.seconds = acc, sub, case, seconds
+
+    def __enter__(self):
+        signal.setitimer(signal.ITIMER_PROF, self.seconds)
+        return self
+
+    def __exit__(self, et, ev, tb):
+        signal.setitimer(signal.ITIMER_PROF, 0)
+        if et is None:
+            return False
+        if et is Hang:
+            self.acc.mismatch(self.sub, "HANG", self.case, "HANG", "terminates")
+            return True
+        if issubclass(et, Exception) or et in (KeyboardInterrupt, SystemExit, GeneratorExit):
+            return False
+        self.acc.mismatch(self.sub, f"escapes-{et.__name__}", self.case, f"{et.__name__}: {str(ev)[:80]}",
+                          "a value or an ordinary exception")
+        return True
+
+
 def run(task):
     """task = (property module name, function name, argument)"""
     modname, fn, arg = task
@@ -89,5 +123,12 @@ def run(task):
     try:
         horizon(SHARD_WATCHDOG)   # a whole shard that never ends is an infrastructure failure
         return getattr(mod, fn)(arg)
+    except BaseException as e:  # noqa: BLE001
+        if isinstance(e, (KeyboardInterrupt, SystemExit)):
+            raise
+        if isinstance(e, Exception):
+            raise
+        # a BaseException would kill the pool worker silently and the pool would wait for ever
+        raise RuntimeError(f"worker aborted by {type(e).__name__}: {str(e)[:200]} (shard {str(arg)[:200]})") from None
     finally:
         horizon_off()
